@@ -514,6 +514,10 @@ def pipeline_check(ctx, menu, rule, nontrivial, rand_n=0, extra_gen=(), only=Non
         vlib.tlc_check(ctx, "MC_Pipeline", cfg, workers=vlib.NCPU, timeout=2400)
     for cfg, inv in PIPELINE_DEMOS.get(menu, ()):
         vlib.tlc_expect_violation(ctx, "MC_Pipeline", cfg, inv)
+    proved = 0
+    if menu == "C02" or (menu == "C07" and not ctx.quick()):
+        # unbounded: the sum / inputs / current-package invariants of Pipeline.tla itself, for any packages, generators, runs
+        proved = vlib.tlaps_prove(ctx, "proofs/PipelineSumProof.tla", with_modules=("Pipeline.tla", "PipelineBase.tla"))
     gens = ["PipelineHist_%s_%s.cfg" % (menu, t)] + list(extra_gen)
     res = run_family(ctx, "pipeline", "MC_PipelineHist", gens, "PipelineTrace", rand_n=rand_n, shard=6000, by_history=True, exec_timeout=7200)
     fails = list(extra_fails) + vlib.collect_failures(res["trace"], res["bad"], "pipeline", only_prefix=only or ctx.prop, cases=res["cases"])
@@ -526,6 +530,7 @@ def pipeline_check(ctx, menu, rule, nontrivial, rand_n=0, extra_gen=(), only=Non
         "distinct_nontrivial": len({r["cid"] for r in runs if nontrivial(r)}),
         "rule": rule,
         "exhaustive": True,
+        "tlaps_obligations_discharged": proved,
         "histories": len(hists),
         "other_family_lines": extra_lines,
         "steps": len(tr),
@@ -559,7 +564,10 @@ def check_C02(ctx):
         "{GenerateType call T1/T2, deferred callback} x package {p,q,r} x generator {a,b} on three run shapes (All over everything, non-All on two entrypoints with "
         "reordered generators, All+Force through a dependency) from five pre-states {fresh, generated once, converged, converged + stale files, converged without gengo.sum} in "
         "three layouts x 2 behaviour configurations, each followed by a plain All run; every run in a fresh process, death = os.Exit(7) inside the callback. "
-        "evaluations = runs executed; non-trivial = histories whose fault was actually reached.",
+        "evaluations = runs executed; non-trivial = histories whose fault was actually reached. Unbounded part: proofs/PipelineSumProof.tla proves with TLAPS over "
+        "Pipeline.tla itself - any packages, generators, import graph, behaviours, arguments, number of runs - that gengo.sum changes only in the save step or between runs and "
+        "equals its value at the start of the run whenever a run is in progress, has failed or has died, and that a run changes sources / user files never and outputs of "
+        "the current package only.",
         lambda r: r["obs"]["failed"] or r["obs"]["died"],
         rand_n=100 if ctx.quick() else 2000, level="fault_enumeration")
 
